@@ -26,7 +26,7 @@ package publicsuffix
 //   list.go candidate repair of the known finding (`icann = icannNode` only if the node is not parent-only):
 //            package tests pass, check passes without KNOWN-FINDING
 //
-// Known finding C51-icann-inner-node: see known_findings.txt and repro/C51.
+// Finding C51-icann-inner-node (fixed in /repo 65afae2): see known_findings.txt and repro/C51.
 
 import "strings"
 
@@ -240,10 +240,10 @@ func c51check(labels []string) {
 	}
 	vfAssert(gotN >= 1, "the result consists of whole labels")
 	vfAssert(wantN == gotN, "public suffix = labels matched by the prevailing rule")
-	// known finding C51-icann-inner-node: the flag of an inner (parent-only) tree node, always true in the shipped table,
-	// replaces the flag of the prevailing rule (false for the default rule and for private rules)
-	vfAssertKF(vfImplies(flagDefined, icann == wantIcann), "ICANN flag of the prevailing rule", "C51-icann-inner-node",
-		vfAnd(vfAnd(icann, vfNot(wantIcann)), innerBeyond))
+	// (fixed finding C51-icann-inner-node, /repo 65afae2: the flag of an inner (parent-only) tree node, always true in the
+	// shipped table, replaced the flag of the prevailing rule)
+	_ = innerBeyond
+	vfAssert(vfImplies(flagDefined, icann == wantIcann), "ICANN flag of the prevailing rule")
 
 	// from here on the suffix is known to be the reference's (asserted above for every value on this path)
 	e1, err := EffectiveTLDPlusOne(domain)
